@@ -3,5 +3,5 @@ From Coq Require Import List ZArith Floats Extraction ExtrOcamlBasic ExtrOCamlFl
 From LN Require Import C19_Defs.
 Extraction Language OCaml.
 Extraction "extracted/c19_model.ml" make step after run read_i64 read_f64 read_ip read_fp read_str read_enum
-  natural_read convert domain_of stoll split_pair tokens f2i i2f trunc_f encode decode
+  natural_read convert domain_of stoll split_pair tokens f2i i2f trunc_f conv_i make_integer_d encode decode
   cregister cassign cread cstep crun cfound sclone sstep srun str_eqb.
